@@ -349,6 +349,9 @@ def coq_enum_prog(name, xj):
     b = lambda x: 'true' if x else 'false'
     roots = set()
     collect_roots([it for it in xj['items'] if it['kind'] != 'enum'], roots)
+    bound = set()
+    bound_names(xj['items'], bound)
+    roots -= bound
     docs = all(f in fns and has_doc_attr(fns[f]['attrs']) for f in ('raw_value', 'new_with_raw_value'))
     return '(mkEnumProg %s %s [%s] %s %s %d %s %s %s %s %s [%s] %s %s [%s] %s)' % (
         cstr(name), b(derive), '; '.join(vs), b(raw_ok), ctor, cast, raw_ret, b(new_ok), new_param, ret_result, b(reader),
@@ -481,6 +484,15 @@ def shape_step(fn, name):
     return '(ShStep [%s])' % '; '.join('(%s, %s)' % (cstr(m), coq_optN(i)) for m, i in calls)
 
 
+def _label(e):
+    """the text of a `stringify!(x)` or of a string literal"""
+    if isinstance(e, dict) and e.get('e') == 'macro' and e.get('path') == ['stringify']:
+        return e['tokens'].strip().replace(' ', '')
+    if isinstance(e, dict) and e.get('e') == 'lit' and e.get('kind') == 'str':
+        return e['value']
+    return None
+
+
 def shape_debug(fn):
     ok_sig = fn['params'] == [{'self': '&'}, {'name': 'f', 'ty': '&mut::core::fmt::Formatter<\'_>'}] and fn['ret'] == '::core::fmt::Result' \
         and not fn['const'] and not fn['unsafe'] and fn['generics'] == ''
@@ -491,19 +503,19 @@ def shape_debug(fn):
     cur = e['recv']
     while isinstance(cur, dict) and cur.get('e') == 'mcall' and cur['method'] == 'field':
         a = cur['args']
-        if len(a) != 2 or a[0].get('e') != 'macro' or a[0]['path'] != ['stringify'] or cur['turbofish'] != '':
+        if len(a) != 2 or cur['turbofish'] != '' or _label(a[0]) is None:
             return 'ShOther'
         r = a[1]
         if not (r.get('e') == 'ref' and not r['mut'] and r['x'].get('e') == 'mcall' and r['x']['args'] == [] and
                 r['x']['turbofish'] == '' and _is_path(r['x']['recv'], ['self'])):
             return 'ShOther'
-        fields.append((a[0]['tokens'].strip().replace(' ', ''), r['x']['method']))
+        fields.append((_label(a[0]), r['x']['method']))
         cur = cur['recv']
     if not (isinstance(cur, dict) and cur.get('e') == 'mcall' and cur['method'] == 'debug_struct' and _is_path(cur['recv'], ['f'])
-            and len(cur['args']) == 1 and cur['args'][0].get('e') == 'macro' and cur['args'][0]['path'] == ['stringify']):
+            and len(cur['args']) == 1 and _label(cur['args'][0]) is not None):
         return 'ShOther'
     fields.reverse()
-    return '(ShDebug %s [%s])' % (cstr(cur['args'][0]['tokens'].strip()),
+    return '(ShDebug %s [%s])' % (cstr(_label(cur['args'][0])),
                                   '; '.join('(%s, %s)' % (cstr(a), cstr(b)) for a, b in fields))
 
 
@@ -580,6 +592,25 @@ def collect_roots(node, out):
             continue           # attributes are doc / inline / derive / cfg / repr / deprecated: checked separately
         if isinstance(v, (dict, list)):
             collect_roots(v, out)
+
+
+def bound_names(node, out):
+    """names introduced inside the expansion itself: let / block-const bindings, fn parameters, binding patterns"""
+    if isinstance(node, list):
+        for x in node:
+            bound_names(x, out)
+    elif isinstance(node, dict):
+        if node.get('s') in ('let', 'const') and isinstance(node.get('name'), str):
+            out.add(node['name'])
+        if node.get('kind') == 'fn':
+            for p in node.get('params', []):
+                if 'name' in p:
+                    out.add(p['name'])
+        if node.get('p') == 'ident' and isinstance(node.get('name'), str):
+            out.add(node['name'])
+        for v in node.values():
+            if isinstance(v, (dict, list)):
+                bound_names(v, out)
 
 
 ALLOWED_ATTRS = {'doc', 'inline', 'derive', 'repr', 'deprecated', 'cfg'}
@@ -686,6 +717,9 @@ def coq_extras(name, xj, user_attr_paths=()):
             others.append('%s %s' % (k, (it.get('name') or it.get('self_ty') or it.get('tokens', ''))[:60]))
     roots = set()
     collect_roots(xj['items'], roots)
+    bound = set()
+    bound_names(xj['items'], bound)
+    roots -= bound            # locals and parameters of the generated code are not references to anything outside it
     ap = []
     attr_problems(xj['items'], ap)
     ap = [a for a in ap if a.split(' ', 1)[1] not in user_attr_paths]
